@@ -1,12 +1,17 @@
 (* C01 - a step never starts before everything it depends on has finished.
    This file holds nothing but the property theorems (closed by `exact`) and Print Assumptions.
    Model: Sched/Model.v.  Proofs: Sched/Proofs.v.  Tie to the code: tools/props/C01.py.
-   Premise: norepeat c (no repeatPolicy step).  Since fix f9e55a3 no premise about the done channel is needed.
+   Premise: norepeat c (no repeatPolicy step).  The premise is NEEDED, it is not a convenience: a step with repeatPolicy
+   and continueOn.failure whose command fails is labelled failed and keeps repeating, so its dependents are released and
+   its command starts again after theirs - C01_repeating_dependency_refuted below; the same on the real scheduler
+   (findings/C15-repeat-continue-on-failure.json).  A repeating step WITHOUT continueOn.failure stays running until a stop
+   request, so its dependents never start (C05_no_new_start).  Since fix f9e55a3 no premise about the done channel is
+   needed.
    Modelled away (trusted base): node teardown (log flush) does not fail - the code turns a finished node into
    failed when the flush fails, after dependents may already have looked. *)
 From Coq Require Import List.
 Import ListNotations.
-From BD.Sched Require Import Model Proofs Replay ReplayProofs ProofsTrace Examples.
+From BD.Sched Require Import Model Proofs Replay ReplayProofs ProofsTrace Examples Examples2.
 
 (* For every configuration (any dependency lists, flags, retry limits, preconditions, maxActiveRuns), every
    execution ls1 ++ WExecStart i :: ls2 of the scheduler model (= every outcome assignment and interleaving) and
@@ -66,3 +71,15 @@ Example C01_done_nil_flip_repaired :
             In 0 (deps (steps flip_cfg 1)) /\ ph (nd s 0) = PExec /\ st (nd s 0) = NRunning /\
             step flip_cfg s (LCommit 1) = None.
 Proof. exact stale_flip_repaired. Qed.
+
+(* Why norepeat is a premise: repeatPolicy + continueOn.failure, the command fails: the step is labelled failed (which
+   permits its dependent, step 1) and keeps repeating; its command starts again after step 1's (ls2 contains
+   WExecStart 0) - with maxActiveRuns = 1 two commands then execute at once. *)
+Example C01_repeating_dependency_refuted :
+  maxActive repeat_cof_cfg = 1 /\ donech repeat_cof_cfg = true /\
+  exists s1 s2 s3, run repeat_cof_cfg (init repeat_cof_cfg) repeat_cof_pre = Some s1 /\
+    step repeat_cof_cfg s1 (WExecStart 1) = Some s2 /\ run repeat_cof_cfg s2 repeat_cof_post = Some s3 /\
+    In 0 (deps (steps repeat_cof_cfg 1)) /\ In (WExecStart 0) repeat_cof_post /\
+    st (nd s1 0) = NError /\ ph (nd s1 0) = PRepeatWait /\
+    ph (nd s3 0) = PExec /\ ph (nd s3 1) = PExec /\ exec_count repeat_cof_cfg s3 = 2 /\ running_count repeat_cof_cfg s3 = 1.
+Proof. exact repeat_cof_breaks_order_and_cap. Qed.
